@@ -96,7 +96,8 @@ def run(ctx):
 
     # 5. real totals around 2^32
     big = os.path.join(d, "big.ndjson")
-    s = vlib.harness(b, "xxh-big", "--out", big, timeout=1200)
+    # (thorough: the same 2^32 - 1 .. 2^32 + 16 bytes also through single ChecksumZero calls; 4 GiB of memory)
+    s = vlib.harness(b, "xxh-big", "--out", big, *([] if ctx.tier == "quick" else ["--oneshot"]), timeout=1800)
     ctx.evaluations += s["events"]
     ctx.distinct += s["cases"]
     acc, rej = vlib.validate_trace(ctx, "XXH32_Trace", big, shards=4)
@@ -104,7 +105,7 @@ def run(ctx):
     if rej:
         # re-execute: the big run is deterministic; run it again once and compare the same records
         big2 = os.path.join(d, "big2.ndjson")
-        vlib.harness(b, "xxh-big", "--out", big2, timeout=1200)
+        vlib.harness(b, "xxh-big", "--out", big2, *([] if ctx.tier == "quick" else ["--oneshot"]), timeout=1800)
         recs2 = {r_["case"]: r_ for r_ in vlib.read_ndjson(big2)}
         for rj in rej:
             rec = json.loads(rj["line"])
